@@ -31,9 +31,11 @@ import registry  # noqa: E402
 import findings  # noqa: E402
 import replaylib  # noqa: E402
 
-BUILD = os.path.join(ROOT, "build")
-EVID = os.path.join(ROOT, "evidence")
-REPLAYS = os.path.join(ROOT, "replays")
+# the three output directories can be redirected (used by the mutation self-test, which must not overwrite the evidence of the real tree)
+_OUT = os.environ.get("VERIF_EVIDENCE_DIR")
+BUILD = os.path.join(_OUT, "build") if _OUT else os.path.join(ROOT, "build")
+EVID = _OUT or os.path.join(ROOT, "evidence")
+REPLAYS = os.path.join(_OUT, "replays") if _OUT else os.path.join(ROOT, "replays")
 
 CANARY = ("\nverus! {\nproof fn __verif_canary() ensures false {} // @CANARY\n"
           "#[verifier::external_body] pub fn verif_nondet_bool() -> bool { unimplemented!() }\n}\n")
